@@ -496,7 +496,8 @@ pub fn run(out: &mut dyn Write, _args: &[String]) {
     let mut count = 0u64;
     // exhaustive small scopes
     let scopes: &[(usize, u64, usize)] = if thorough {
-        &[(1, 4, 7), (2, 4, 7), (3, 4, 7), (2, 3, 9), (3, 3, 9)]
+        // (lengths 7 / 9 produce a case file of tens of gigabytes: one more step than the quick tier is what fits)
+        &[(1, 4, 6), (2, 4, 6), (3, 4, 6), (2, 3, 7), (3, 3, 7)]
     } else {
         &[(1, 4, 4), (2, 4, 4), (3, 4, 4), (2, 3, 5), (3, 3, 5)]
     };
